@@ -103,6 +103,10 @@ structure St where
   o : Option OSt := none
   /-- clause prefix enabled for this run ("" = all) -/
   only : String := ""
+  /-- (job id, absolute expiry in ns) of the jobs dispatched with a TTL in this case -/
+  expiry : List (Nat × Nat) := []
+  /-- the case runs with `DiscardSettings::Dynamic` (`dyn=1`) -/
+  dyn : Bool := false
 
 def bracket? (ws : List String) (k : String) : Option (List String) := do
   let v ← kv ws k
@@ -163,13 +167,18 @@ def opEvents : Op → List Ev
   | _ => []
 
 /-- feed one step of the implementation's history to the oracle; returns the newly violated clauses -/
-def judge (st : St) (evs : List Ev) (te : Nat) : St × List String :=
+def judge (st : St) (evs : List Ev) (t0 te : Nat) : St × List String :=
   match st.o with
   | none => (st, [])
   | some o =>
     let n := o.bad.length
     let o' := evs.foldl oStep o
     let o' := if rlOk o'.info o'.startsTotal te then o' else o'.flag "c15-ratelimit-window"
+    -- C13 (time-dependent, judged here): a job whose TTL had run out before this step began is never handed to a
+    -- worker — both dequeue points (`get_next_non_expired_job`, the head loop of `try_route_next_active_job`) and
+    -- `dispatch` discard it as TtlExpired instead
+    let o' := if evs.any (fun | .start _ id _ => (st.expiry.find? (·.1 == id)).any (fun x => x.2 < t0) | _ => false)
+      then o'.flag "c13-expired-job-started" else o'
     let fresh := (o'.bad.drop n).filter (·.startsWith st.only)
     ({ st with o := some o' }, fresh.eraseDups)
 
@@ -190,17 +199,32 @@ def step (st : St) (op impl : String) : St × StepOut :=
         let w := (init c).stepOp .nop t0 tq te
         let info : Info := { router := c.cfg.router, prioQueue := c.cfg.prioQueue, hasHandler := c.cfg.hasHandler,
                              n := c.n, disc := c.disc, rl := c.rl }
-        let st := { st with w := some w, o := some (oInit info) }
+        let st := { st with w := some w, o := some (oInit info), dyn := kv ws "dyn" == some "1" }
         match parseObs? impl with
         | some evs =>
-          let (st, bad) := judge st evs te
+          let (st, bad) := judge { st with expiry := [] } evs t0 te
           (st, { model := render w 0, oracle := bad })
         | none => (st, { model := render w 0, oracle := ["unparsable"] })
     | _ =>
-      match st.w, parseOp? ws with
+      -- `ping <limit>` = `FactoryMessage::DoPings`. With `DiscardSettings::Dynamic` the controller's answer becomes the
+      -- limit (mode unchanged, nothing is shed at that moment); for the routers that queue at the factory — the only
+      -- ones the generator gives Dynamic settings — that is exactly what `UpdateSettings` with `Static{limit, mode}`
+      -- does to the factory's bookkeeping (the workers' own settings are `None` either way), so the model replays it
+      -- as that message. Without Dynamic settings (or with `disc = None`) a ping changes nothing the model tracks.
+      let ping? : Option Nat := match ws with | "ping" :: nl :: _ => nl.toNat? | _ => none
+      -- behind a held-busy factory the settings in force when the ping is handled are not known at the time of the
+      -- op: the harness does not perform it (`noping`)
+      let noping : Bool := ping?.isSome && (st.w.any fun w => (W.advanceTo t0 (advanceFuel w t0) w).blocked)
+      let pop : Option Op := match st.w, ping? with
+        | some w, some nl =>
+          (match st.dyn && !noping, w.disc with
+            | true, some (_, m) => some (Op.settings (some (some (nl, m))) none)
+            | _, _ => some Op.nop)
+        | _, _ => parseOp? ws
+      match st.w, pop with
       | some w, some o =>
         let n := w.env.log.length
-        let sendfail := w.stopped && needsFactory o
+        let sendfail := w.stopped && (needsFactory o || (ping?.isSome && !noping))
         let w' := w.stepOp o t0 tq te
         let noblock := (match o with | .block => true | _ => false) && !w'.blocked
         let wAt := W.advanceTo t0 (advanceFuel w t0) w
@@ -211,13 +235,22 @@ def step (st : St) (op impl : String) : St × StepOut :=
         let nochild : Bool := match o with
           | .kill aid => !(!wAt.exited && (wAt.env.getActor aid).any (·.alive))
           | _ => false
-        let m := render w' n ++ (if sendfail then " sendfail" else "") ++ (if noblock then " noblock" else "") ++ (if nogate then " nogate" else "") ++ (if nochild then " nochild" else "")
+        let m := render w' n ++ (if sendfail then " sendfail" else "") ++ (if noblock then " noblock" else "") ++ (if nogate then " nogate" else "") ++ (if nochild then " nochild" else "") ++ (if noping then " noping" else "")
         let nt := (w'.env.log.drop n).any fun
           | .discard .. => true | .build .. => true | .lost .. => true | .hook _ => true | _ => false
         let st := { st with w := some w' }
+        let st := match o with
+          | .dispatch id _ _ (some ttl) _ => { st with expiry := (id, t0 + ttl) :: st.expiry }
+          | _ => st
         match parseObs? impl with
         | some evs =>
-          let (st, bad) := judge st (opEvents o ++ evs) te
+          let (st, bad) := judge st (opEvents o ++ evs) t0 te
+          -- the hypothesis of the `_partial` theorems (`noStaleRun`, evaluated on the model state) against the
+          -- oracle's own classifier (evaluated on the implementation's history): every step the model calls a
+          -- stale kill must have been classified stale by the oracle, so that whatever the oracle judges under
+          -- `noStaleCompletion` lies inside the theorems' hypothesis
+          let bad := if o.isStaleAt wAt && !(st.o.any (·.stale)) && "c13-stale-classifier-misses-model-stale-kill".startsWith st.only
+            then bad ++ ["c13-stale-classifier-misses-model-stale-kill"] else bad
           (st, { model := m, oracle := bad, nontrivial := nt })
         | none => (st, { model := m, oracle := ["unparsable"], nontrivial := nt })
       | _, _ => (st, { model := "bad-op" })
